@@ -173,11 +173,12 @@ fn vertex_arg(n: usize) -> usize {
 /// Inherent queries of a representation on every digraph of order N, with the
 /// thread count the parallel ones may use symbolic in 1..=P.
 pub fn inherent<R: Rep, const N: usize>(pmax: usize) {
+    let cfg = pmax;
+    let pmax = cx::threads_max(cfg);
+
     cx::set_vcap(N.max(pmax) + 1);
 
-    let p = nd::below(pmax) + 1;
-
-    cx::set_parallelism(p);
+    let p = cx::threads(cfg);
 
     let g = G::<N>::any();
     let d = build::<R, N>(&g);
@@ -247,7 +248,7 @@ pub fn inherent<R: Rep, const N: usize>(pmax: usize) {
     assert!(d.has_walk(&w[..len]) == def, "has_walk iff >= 2 vertices and every consecutive pair is an arc");
     assert!(d == before, "queries do not change the digraph");
     kani::cover!(len == 3 && def, "a walk of three vertices exists");
-    kani::cover!(p > N, "more threads than vertices");
+    kani::cover!(cfg >= cx::EXACT || pmax <= N || p > N, "more threads than vertices");
     core::mem::forget(d);
     core::mem::forget(before);
 }
@@ -451,36 +452,44 @@ fn weighted<const N: usize>() {
 // The 14 blanket / default implementations over the array digraph: all 4096 digraphs on 4 vertices.
 // @verif prop=C02 tier=quick fl=f0 role=blanket/array t=600 mem=10
 #[cfg_attr(kani, kani::proof)]
-#[cfg_attr(kani, kani::unwind(6))]
+#[cfg_attr(kani, kani::unwind(8))]
 pub fn c02_blanket_array_n4() {
     blanket_array::<4>();
 }
 
 // @verif prop=C02 tier=thorough fl=f0 role=blanket/array t=3600 mem=24
 #[cfg_attr(kani, kani::proof)]
-#[cfg_attr(kani, kani::unwind(7))]
+#[cfg_attr(kani, kani::unwind(8))]
 pub fn c02_blanket_array_n5() {
     blanket_array::<5>();
 }
 
 // @verif prop=C02 tier=quick fl=f0 role=inherent/matrix t=900 mem=12
 #[cfg_attr(kani, kani::proof)]
-#[cfg_attr(kani, kani::unwind(6))]
+#[cfg_attr(kani, kani::unwind(8))]
 pub fn c02_inherent_matrix_n3() {
     inherent::<AdjacencyMatrix, 3>(1);
 }
 
 // @verif prop=C02 tier=quick fl=f1 role=inherent/edge-list t=900 mem=12
 #[cfg_attr(kani, kani::proof)]
-#[cfg_attr(kani, kani::unwind(6))]
+#[cfg_attr(kani, kani::unwind(8))]
 pub fn c02_inherent_edge_list_n3() {
     inherent::<EdgeList, 3>(1);
 }
 
-// AdjacencyList incl. the threaded degree_sequence with symbolic thread count p in 1..=4.
-// @verif prop=C02 tier=quick fl=f2 role=inherent/adjacency-list t=900 mem=12
+// AdjacencyList incl. the threaded degree_sequence with 2 worker threads.
+// @verif prop=C02 tier=quick fl=f2 role=inherent/adjacency-list t=1500 mem=14
 #[cfg_attr(kani, kani::proof)]
-#[cfg_attr(kani, kani::unwind(7))]
+#[cfg_attr(kani, kani::unwind(8))]
+pub fn c02_inherent_adjacency_list_n3_t2() {
+    inherent::<AdjacencyList, 3>(cx::EXACT + 2);
+}
+
+// ... with the thread count symbolic in 1..=4.
+// @verif prop=C02 tier=thorough fl=f2 role=inherent/adjacency-list t=3600 mem=30
+#[cfg_attr(kani, kani::proof)]
+#[cfg_attr(kani, kani::unwind(8))]
 pub fn c02_inherent_adjacency_list_n3_p4() {
     inherent::<AdjacencyList, 3>(4);
 }
@@ -508,21 +517,21 @@ pub fn c02_weighted_n3() {
 
 // @verif prop=C02 tier=quick fl=f1 role=derived/edge-list t=900 mem=12
 #[cfg_attr(kani, kani::proof)]
-#[cfg_attr(kani, kani::unwind(6))]
+#[cfg_attr(kani, kani::unwind(8))]
 pub fn c02_derived_edge_list_n3() {
     derived_rep::<EdgeList, 3>();
 }
 
 // @verif prop=C02 tier=quick fl=f0 role=derived/matrix t=900 mem=12
 #[cfg_attr(kani, kani::proof)]
-#[cfg_attr(kani, kani::unwind(6))]
+#[cfg_attr(kani, kani::unwind(8))]
 pub fn c02_derived_matrix_n3() {
     derived_rep::<AdjacencyMatrix, 3>();
 }
 
 // @verif prop=C02 tier=thorough fl=f1 role=derived/adjacency-list t=1800 mem=16
 #[cfg_attr(kani, kani::proof)]
-#[cfg_attr(kani, kani::unwind(6))]
+#[cfg_attr(kani, kani::unwind(8))]
 pub fn c02_derived_adjacency_list_n3() {
     derived_rep::<AdjacencyList, 3>();
 }
@@ -536,14 +545,14 @@ pub fn c02_derived_adjacency_map_n3() {
 
 // @verif prop=C02 tier=thorough fl=f0 role=inherent/matrix t=3600 mem=24
 #[cfg_attr(kani, kani::proof)]
-#[cfg_attr(kani, kani::unwind(7))]
+#[cfg_attr(kani, kani::unwind(8))]
 pub fn c02_inherent_matrix_n4() {
     inherent::<AdjacencyMatrix, 4>(1);
 }
 
 // @verif prop=C02 tier=thorough fl=f1 role=inherent/edge-list t=3600 mem=24
 #[cfg_attr(kani, kani::proof)]
-#[cfg_attr(kani, kani::unwind(7))]
+#[cfg_attr(kani, kani::unwind(8))]
 pub fn c02_inherent_edge_list_n4() {
     inherent::<EdgeList, 4>(1);
 }
